@@ -14,9 +14,9 @@ open Halo
 
 /-- a successful `CreatePair` establishes the invariant for the new pair (with zero LP supply) -/
 theorem created_pair_inv {name : Asset → String} {w w' : World} {s : Nat} {f : List (Nat × Nat)}
-    {a0 a1 : Asset} {req : Requirements} {c : Option Nat} {np nl : Nat} {out : Out}
-    (hv : ValidOp w (.factory s f (.createPair a0 a1 req c np nl))) (hn : NewAddrs w np nl)
-    (h : exec name w (.factory s f (.createPair a0 a1 req c np nl)) = .ok (w', out)) :
+    {a0 a1 : Asset} {req : Requirements} {c ld : Option Nat} {np nl : Nat} {out : Out}
+    (hv : ValidOp w (.factory s f (.createPair a0 a1 req c ld np nl))) (hn : NewAddrs w np nl)
+    (h : exec name w (.factory s f (.createPair a0 a1 req c ld np nl)) = .ok (w', out)) :
     PairInv w' np a0 a1 nl ∧ supply w' nl = 0 :=
   Halo.C03G.created_pair_inv hv hn h
 
@@ -29,9 +29,9 @@ theorem pairInv_run {name : Asset → String} {p : Nat} {a0 a1 : Asset} {lp : Na
 /-- **C03_partial from genesis**: from the creation of a pair on, along any history none of whose swaps on the
 pair is in the window, the share value never decreases between any two points of the history -/
 theorem history_from_creation {name : Asset → String} {w w1 : World} {s : Nat} {f : List (Nat × Nat)}
-    {a0 a1 : Asset} {req : Requirements} {c : Option Nat} {np nl : Nat} {out : Out}
-    (hv : ValidOp w (.factory s f (.createPair a0 a1 req c np nl))) (hn : NewAddrs w np nl)
-    (h : exec name w (.factory s f (.createPair a0 a1 req c np nl)) = .ok (w1, out))
+    {a0 a1 : Asset} {req : Requirements} {c ld : Option Nat} {np nl : Nat} {out : Out}
+    (hv : ValidOp w (.factory s f (.createPair a0 a1 req c ld np nl))) (hn : NewAddrs w np nl)
+    (h : exec name w (.factory s f (.createPair a0 a1 req c ld np nl)) = .ok (w1, out))
     (ops₁ ops₂ : List Op) (hv₁ : ValidRun name w1 ops₁) (hv₂ : ValidRun name (run name w1 ops₁) ops₂)
     (hnw : NoWindowRun name np (run name w1 ops₁) ops₂) :
     NonDecr (viewOf (run name w1 ops₁) np a0 a1 nl) (viewOf (run name (run name w1 ops₁) ops₂) np a0 a1 nl) :=
